@@ -6,12 +6,10 @@ import DEngine.Model.Purge
   engines, restarts, role changes), a purge up to `L` is executed only if `L` is below the commit index the role had
   when it handled `SnapshotCreated` and `L` is covered by the snapshot the node then holds; `can_purge_sound` is
   the purge condition for all argument combinations.
-* `lagging_peer_served`: a peer whose `next_index` lies below the log start is a snapshot target and the snapshot
-  the node holds covers the log start; a peer exactly at the boundary gets an AppendEntries whose `prev_log_term`
-  is known. **False as coded after a restart of the File engine** (F26: snapshot metadata memory-only, purge
-  boundary not persisted): negation `lagging_peer_served_false` from a kernel-checked witness that is replayed on
-  the real FileStateMachine / FileStorageEngine; `lagging_peer_served_partial` for RocksDB (incl. restarts) and for
-  the File engine between restarts.
+* `lagging_peer_served` (full): after any run on either engine, restarts included, a peer whose `next_index` lies
+  below the log start is a snapshot target and the snapshot the node holds covers the log start; a peer exactly at
+  the boundary gets an AppendEntries whose `prev_log_term` is known. (It was false after a restart of the File
+  engine until the fixes 8997011 / aab5543 — F26a, F26b; the old witness is a regression case.)
 -/
 namespace DEngine.C33
 open DEngine.Purge
@@ -233,10 +231,10 @@ theorem sched_none_of_not_leader (s : PState) (h : PInvWeak s) (hr : s.role ≠ 
   | none => rfl
   | some e => exact absurd (h.sched_ok e hs).1 hr
 
-/-- every op preserves the weak invariant; every op except a File-engine restart preserves the full one -/
+/-- every op preserves the weak and the full invariant -/
 theorem step_inv (s : PState) (op : POp) :
     (PInvWeak s → PInvWeak (step s op).1) ∧
-    (PInv s → (∀ r, op = .restart r → s.eng = .rocks) → PInv (step s op).1) := by
+    (PInv s → True → PInv (step s op).1) := by
   cases op with
   | write k t =>
     have hfirst : ∀ f', f' = (if s.last = 0 then (if k = 0 then s.first else 1) else s.first) →
@@ -363,12 +361,9 @@ theorem step_inv (s : PState) (op : POp) :
     constructor
     · intro h
       simp only [step, restart]
-      split
-      · exact ⟨h.below_label, h.snap_label, (fun _ he => nomatch he), (fun _ he => nomatch he)⟩
-      · exact ⟨h.below_label, (fun _ hm => nomatch hm), (fun _ he => nomatch he), (fun _ he => nomatch he)⟩
-    · intro h hr
-      have := hr r rfl
-      simp only [step, restart, this]
+      exact ⟨h.below_label, h.snap_label, (fun _ he => nomatch he), (fun _ he => nomatch he)⟩
+    · intro h _
+      simp only [step, restart]
       exact ⟨h.boundary, h.covered, h.below_label, h.snap_label, (fun _ he => nomatch he), (fun _ he => nomatch he)⟩
 
 /-- the purges executed along a run: (purge index, commit index before the op, snapshot held after the op) -/
@@ -464,73 +459,31 @@ theorem served_of_inv (s : PState) (h : PInv s) (next : Nat) : servedB s next = 
           simp [hnext, this]
         · simp [hnext, hb]
 
-theorem run_final_inv (ops : List POp) : ∀ s, PInv s →
-    (s.eng = .rocks ∨ ∀ r, POp.restart r ∉ ops) → PInv (run s ops).2.2 := by
+theorem run_final_inv (ops : List POp) : ∀ s, PInv s → PInv (run s ops).2.2 := by
   induction ops with
-  | nil => intro s h _; simpa [run] using h
+  | nil => intro s h; simpa [run] using h
   | cons op ops ih =>
-    intro s h hcond
+    intro s h
     simp only [run]
-    have heng : (step s op).1.eng = s.eng := by
-      cases op <;> simp only [step, onSnapshotCreated, restart]
-      · rename_i i; split <;> (try split) <;> rfl
-      · rename_i i; split <;> rfl
-      · split
-        · rename_i p hp
-          exact (purgeLog_spec _ _ _ (fun _ => by
-            have hw := h.weak
-            have hspec := snapDecision_spec s.role s.commit s.rolePurged s.sched (label s)
-              (labelTerm s (label s)) s.first hw.sched_ok hw.sched_ge hw.below_label
-            exact (hspec.2.1 p hp).2.2 ‹_›)).2.2.2.2.2.2.2.2
-        · rfl
-      · rename_i r; split <;> rfl
-      · rename_i r; split <;> rfl
-    apply ih
-    · apply (step_inv s op).2 h
-      intro r hr
-      rcases hcond with hc | hc
-      · exact hc
-      · subst hr; exact absurd (List.mem_cons_self) (hc r)
-    · rcases hcond with hc | hc
-      · left; rw [heng]; exact hc
-      · right; intro r hr; exact hc r (List.mem_cons_of_mem _ hr)
+    exact ih _ ((step_inv s op).2 h trivial)
 
-/-- Full-strength statement of the second theorem: after any run, on any engine, every peer position is served. -/
-def LaggingPeerServedStatement : Prop :=
-  ∀ (eng : Eng) (role : Role) (ret : Nat) (ops : List POp) (next : Nat),
-    servedB (run (initState eng role ret) ops).2.2 next = true
-
-/-- F26 witness (File engine): 6 entries, commit 6, applied 5, snapshot (label 4, purge to 4), graceful restart.
-    The log still starts at 5, but the snapshot metadata (memory-only) and the purge boundary (not persisted) are
-    gone: a peer at next_index 2 is a snapshot target with no snapshot to send, a peer at next_index 5 gets
-    prev_log_term 0. -/
+/-- The former F26 witness (File engine): 6 entries, commit 6, applied 5, snapshot (label 4, purge to 4), graceful
+    restart. Both engines now keep the snapshot metadata and the purge boundary. -/
 def f26Ops : List POp := [.write 6 1, .commit 6, .apply 5, .snapshot, .restart .L]
-theorem f26_witness :
-    planPeer (run (initState .file .L 1) f26Ops).2.2 2 = .snapshotTarget none ∧
-    planPeer (run (initState .file .L 1) f26Ops).2.2 5 = .append 4 0 ∧
-    servedB (run (initState .file .L 1) f26Ops).2.2 2 = false ∧
-    servedB (run (initState .file .L 1) f26Ops).2.2 5 = false := by decide
-/-- the same run on RocksDB keeps both -/
-example : planPeer (run (initState .rocks .L 1) f26Ops).2.2 2 = .snapshotTarget (some 4) ∧
-    planPeer (run (initState .rocks .L 1) f26Ops).2.2 5 = .append 4 1 := by decide
+example : planPeer (run (initState .file .L 1) f26Ops).2.2 2 = .snapshotTarget (some 4) ∧
+    planPeer (run (initState .file .L 1) f26Ops).2.2 5 = .append 4 1 ∧
+    planPeer (run (initState .rocks .L 1) f26Ops).2.2 2 = .snapshotTarget (some 4) := by decide
 
-theorem lagging_peer_served_false : ¬ LaggingPeerServedStatement := by
-  intro h
-  have := h .file .L 1 f26Ops 2
-  rw [f26_witness.2.2.1] at this
-  cases this
-
-/-- **C33, second theorem, partial (exact excluded trigger: a restart of the File engine).** On RocksDB for every
-    run including restarts, and on the File engine for every run without a restart, every peer position is served:
-    a peer below the log start is a snapshot target and the snapshot held covers the log start; a peer at the
-    boundary gets a known prev_log_term. -/
-theorem lagging_peer_served_partial (eng : Eng) (role : Role) (ret : Nat) (ops : List POp) (next : Nat)
-    (h : eng = .rocks ∨ ∀ r, POp.restart r ∉ ops) :
+/-- **C33, second theorem (full strength).** After any run on either engine — restarts and role changes included
+    — every peer position is served: a peer below the log start is a snapshot target and the snapshot held covers
+    the log start; a peer at the boundary gets a known prev_log_term. -/
+theorem lagging_peer_served (eng : Eng) (role : Role) (ret : Nat) (ops : List POp) (next : Nat) :
     servedB (run (initState eng role ret) ops).2.2 next = true :=
-  served_of_inv _ (run_final_inv ops _ (inv_init eng role ret) h) next
-/-- non-vacuity: lagging peers after a purge, and after a RocksDB restart -/
+  served_of_inv _ (run_final_inv ops _ (inv_init eng role ret)) next
+/-- non-vacuity: lagging peers after a purge, and after a restart -/
 example : servedB (run (initState .file .F 1) [.write 6 1, .commit 6, .apply 5, .snapshot, .trans .L]).2.2 2 = true ∧
-    (run (initState .file .F 1) [.write 6 1, .commit 6, .apply 5, .snapshot, .trans .L]).2.2.first = 5 := by decide
+    (run (initState .file .F 1) [.write 6 1, .commit 6, .apply 5, .snapshot, .trans .L]).2.2.first = 5 ∧
+    (run (initState .file .L 1) f26Ops).2.2.first = 5 := by decide
 
 /-- after a snapshot push the leader restarts the peer at `last + 1` (raft.rs SnapshotPushCompleted) -/
 theorem push_completed_next (s : PState) (h : s.role = .L) :
